@@ -613,6 +613,14 @@ def oracle_downreq(c, o):
     block, body = _blk(c["h"]), (unhx(c["body"]) if c["body"] is not None else b"")
     ps = _pseudo(block)
     regular = _regular(block)
+    # known family: a non-empty body that no content-length announces is written after the head as it is
+    unframed = bool(body) and not any(n.lower() == b"content-length" for n, _ in regular)
+
+    def bad_framing(key, what):
+        if unframed:
+            bad("request-body-without-content-length", f"HTTP/2 request body {_show(body)} without content-length forwarded unframed: " + what)
+        else:
+            bad(key, what)
     for name, opts in (("strict", ref.STRICT), ("lenient", ref.LENIENT)):
         try:
             qs = ref.ref_parse_requests(opts, up)
@@ -620,12 +628,12 @@ def oracle_downreq(c, o):
             if e.kind == ref.INCOMPLETE and c["body"] is None:
                 bad("request-content-length-without-body", f"END_STREAM on HEADERS with a non-zero content-length: {name} reader waits for a body: {_show(up)}")
             elif e.kind == ref.INCOMPLETE:
-                bad("h1-request-incomplete", f"{name} reader waits for more body than was sent: {_show(up)}")
+                bad_framing("h1-request-incomplete", f"{name} reader waits for more body than was sent: {_show(up)}")
             else:
-                bad("h1-request-unparsable", f"{name} reader rejects {_show(up)}")
+                bad_framing("h1-request-unparsable", f"{name} reader rejects {_show(up)}")
             continue
         if len(qs) != 1:
-            bad("h1-request-split", f"{name} reader finds {len(qs)} HTTP/1 requests in {_show(up)}")
+            bad_framing("h1-request-split", f"{name} reader finds {len(qs)} HTTP/1 requests in {_show(up)}")
             continue
         q = qs[0]
         if q["method"] != ps.get(b":method") or q["target"] != ps.get(b":path") or q["version"] != b"HTTP/1.1":
@@ -643,7 +651,7 @@ def oracle_downreq(c, o):
         if want_cookie != got_cookie:
             bad("cookie-changed", f"cookies {want_cookie} became {got_cookie}")
         if q["body"] != body:
-            bad("body-changed", f"body {_show(body)} read as {_show(q['body'])}")
+            bad_framing("body-changed", f"body {_show(body)} read as {_show(q['body'])}")
     # the HTTP/1 response relayed over HTTP/2
     fr = o.get("flow_resp")
     if fr and o.get("resp_h") is not None:
@@ -783,8 +791,8 @@ def classify(case, obs):
     if k == "downreq":
         oc = _outcome_req(obs) or "other"
         tags.append("downreq:" + oc.split(" ")[0].strip("("))
-        if obs.get("up") and b"chunked" in unhx(obs["up"]):
-            tags.append("downreq:chunked-added")
+        if obs.get("up") and case["body"]:
+            tags.append("downreq:with-body")
         if case["tr"] is not None:
             tags.append("trailers")
         if not case["v"]:
